@@ -153,7 +153,7 @@ class Stats(object):
     def violation(self, sig, line, detail):
         """record a violation unless it matches a listed known finding"""
         from known import match_known
-        kid = match_known(self.prop, sig, line, detail)
+        kid = match_known(self.prop, sig, line, detail, self.profile)
         if kid is not None:
             k = self.known.get(kid)
             if k is None:
